@@ -156,7 +156,7 @@ class E2ERun:
             self.log(ev="Bcast", b=list(data))
             seen.clear()
             self.net.send_udp(self.loop, 20002 if t1 else 20003, data)
-            await vnet.settle(3)
+            await vnet.settle(8)
             for g in seen:
                 self.log(ev="Seen", g=g)
             if not seen:
